@@ -20,17 +20,24 @@ import operator
 
 DEFAULT_FLAGS = [False, True, False]
 LIST_OPS = ('lset', 'ldel', 'lappend', 'linsert', 'lextend', 'liadd', 'lpop', 'lremove', 'lclear',
-            'lsort', 'lreverse', 'limul', 'lslice')
+            'lsort', 'lreverse', 'limul', 'lslice', 'ldelslice')
 DICT_OPS = ('dset', 'ddel', 'dpop', 'dpopitem', 'dclear', 'dsetdefault', 'dupdate', 'dior')
 OBJ_OPS = ('oset',)
 
 
 class Opq:
-  """A non-symbolic leaf object (compared by identity)."""
-  __slots__ = ()
+  """A non-symbolic leaf object with mutable inner state (identity is what the dumps show)."""
 
-  def __deepcopy__(self, memo):
-    return Opq()
+  def __init__(self):
+    self.inner = [0]
+
+  def __eq__(self, other):
+    return isinstance(other, Opq) and self.inner == other.inner
+
+  def __ne__(self, other):
+    return not self.__eq__(other)
+
+  __hash__ = object.__hash__
 
 
 class Aliased(Exception):
@@ -91,6 +98,10 @@ class Runner:
     for i, c in enumerate(self.classes):
       if type(n) is c:
         return ['o', i]
+    if type(n) is pg.Ref:
+      return ['o', 2]
+    if type(n) is pg.symbolic.ValueFromParentChain:
+      return ['o', 3]
     return ['?', type(n).__name__]
 
   def children(self, n):
@@ -124,7 +135,7 @@ class Runner:
     elif fam == 'l':
       c = [x for x in nodes if self.kind(x) == 'l']
     elif fam == 'o':
-      c = [x for x in nodes if isinstance(self.kind(x), list)]
+      c = [x for x in nodes if self.kind(x) in (['o', 0], ['o', 1])]
     else:
       c = nodes
     return c[n % len(c)] if c else None
@@ -176,6 +187,18 @@ class Runner:
       return ('atom', 's%d' % abs(j[1]))
     if tag == 'q':
       return ('opq',)
+    if tag == 'I':
+      return ('inferred',)
+    if tag == 'R':
+      if len(j) == 1:
+        return ('mkref', None)
+      nodes = cx['nodes']
+      if not nodes:
+        return ('atom', None)
+      o = nodes[abs(j[1]) % len(nodes)]
+      if id(o) in used or (not cx['unsafe'] and self.same_root(cx, o)):
+        return ('atom', None)
+      return ('mkref', o)
     if tag == 'r':
       nodes = cx['nodes']
       if not nodes:
@@ -192,7 +215,8 @@ class Runner:
             break
           c = c.sym_parent
           steps += 1
-      if id(o) in used or (diverges and not cx['unsafe']):
+      self_ref = (type(o) is pg.Ref and self.is_node(o.value) and self.same_root(cx, o.value))
+      if id(o) in used or ((diverges or self_ref) and not cx['unsafe']):
         return ('atom', None)
       if o.sym_parent is None:
         # a parentless node will be moved: its whole subtree is then out of reach for this call
@@ -221,6 +245,19 @@ class Runner:
       return ('node', ['o', cls], [fl[0], True, fl[2]], items)
     return ('atom', None)
 
+  def believed_root(self, o, fuel):
+    steps = 0
+    while o.sym_parent is not None and steps <= fuel:
+      o = o.sym_parent
+      steps += 1
+    return o
+
+  def same_root(self, cx, o):
+    """does `o` (believe to) live in the tree written to?"""
+    if cx['target'] is None:
+      return False
+    return self.believed_root(o, cx['fuel']) is self.believed_root(cx['target'], cx['fuel'])
+
   def build(self, ve, top=False):
     """Python value of a resolved VE. Containers with default flags stay plain Python
     containers (pyglove converts them when it formalizes the value); flagged containers and
@@ -230,6 +267,10 @@ class Runner:
       return ve[1]
     if ve[0] == 'opq':
       return Opq()
+    if ve[0] == 'inferred':
+      return pg.symbolic.ValueFromParentChain()
+    if ve[0] == 'mkref':
+      return pg.Ref(ve[1] if ve[1] is not None else [1, 2])
     if ve[0] == 'ref':
       return ve[1]
     _, kind, flags, items = ve
@@ -244,6 +285,12 @@ class Runner:
       return pg.List([v for _, v in vals], sealed=flags[0], accessor_writable=flags[1], allow_partial=flags[2])
     cls = self.classes[kind[1]]
     return cls(sealed=flags[0], allow_partial=flags[2], **dict(vals))
+
+  def holds_inferred(self, cont, k):
+    for ck, cv in self.children(cont):
+      if ck == k and type(ck) is type(k):
+        return type(cv) is self.pg.symbolic.ValueFromParentChain
+    return False
 
   def resolve_path(self, cur, specs):
     out = []
@@ -282,8 +329,7 @@ class Runner:
 
     def drop_own(dest, ve):
       # F79 guard: an existing child of list `dest` is not offered as an insertion into `dest`
-      if ve[0] == 'ref' and not cx['unsafe'] and ve[1].sym_parent is dest:
-        return ('atom', None)
+      # (F79 is repaired: elements of a list may be offered as insertions into it)
       return ve
 
     def vs(field):
@@ -301,6 +347,17 @@ class Runner:
     t = target
     ln = len(self.children(t))
     del used
+
+    # `pop` evaluates the value it returns; an un-inferable inferred value raises there: skipped
+    if name == 'lpop':
+      idx_pop = self.resolve_idx(t, j['key'])
+      kk = idx_pop + ln if idx_pop < 0 else idx_pop
+      if self.holds_inferred(t, kk):
+        return 'skip'
+    if name == 'dpop':
+      key_pop = self.resolve_key(t, j['key'])
+      if self.holds_inferred(t, key_pop):
+        return 'skip'
 
     def call():
       if name == 'clone':
@@ -321,7 +378,7 @@ class Runner:
       elif name == 'liadd':
         operator.iadd(t, [self.build(x) for x in vs('vs')])
       elif name == 'lpop':
-        t.pop(self.resolve_idx(t, j['key']))
+        t.pop(idx_pop)
       elif name == 'lremove':
         t.remove(j.get('a', 0))
       elif name == 'lclear':
@@ -334,22 +391,19 @@ class Runner:
         t.reverse()
       elif name == 'limul':
         operator.imul(t, j.get('times', 0))
-      elif name == 'lslice':
-        def clamp(x):
-          y = max(-ln, min(ln, x))
-          return y + ln if y < 0 else y
-        start = clamp(self.resolve_idx(t, j['a']))
-        stop = max(start, clamp(self.resolve_idx(t, j['b'])))
-        stp = max(1, j.get('step', 1))
-        vals = [drop_own(t, x) for x in vs('vs')]
-        if stp > 1:
-          size = max(0, (stop - start + stp - 1) // stp)
-          vals = vals[:size] + [('atom', None)] * (size - len(vals))
-          t[start:stop:stp] = [self.build(x) for x in vals]
+      elif name in ('lslice', 'ldelslice'):
+        def opt(field):
+          spec = j.get(field)
+          return None if spec is None else self.resolve_idx(t, spec)
+        sl = slice(opt('a'), opt('b'), j.get('step'))
+        if name == 'ldelslice':
+          del t[sl]
         else:
-          t[start:stop] = [self.build(x) for x in vals]
+          t[sl] = [self.build(drop_own(t, x)) for x in vs('vs')]
+      elif name == 'seal':
+        t.seal(bool(j.get('flag', True)))
       elif name == 'dpop':
-        t.pop(self.resolve_key(t, j['key']))
+        t.pop(key_pop)
       elif name == 'dpopitem':
         t.popitem()
       elif name == 'dclear':
@@ -452,6 +506,9 @@ class Runner:
         key = len(pre_index) + 1 + min(sub + [len(pre_index)])
       others.append((key, len(others), n))
     roots += [n for _, _, n in sorted(others, key=lambda x: (x[0], x[1]))]
+    # nodes that this step removed from a tree or replaced (they were stored in a container
+    # before and are held by nobody now)
+    self.removed = [n for _, _, n in others if id(n) in pre_index]
     self.roots = roots
     return any(c > 1 for c in contained.values())
 
@@ -483,7 +540,17 @@ class Runner:
 
   def dump_tree(self, n):
     p = n.sym_parent
-    return {'id': self.sid(n), 'kind': self.kind(n),
+    kind = self.kind(n)
+    if kind == ['o', 2]:
+      v = n.value
+      if self.is_node(v):
+        kind = ['o', 2, ['n', self.serial.get(id(v), -1)]]
+      else:
+        if id(v) not in self.opq_serial:
+          self.opq_serial[id(v)] = len(self.opq_serial)
+          self.keep.append(v)
+        kind = ['o', 2, ['q', self.opq_serial[id(v)]]]
+    return {'id': self.sid(n), 'kind': kind,
             'parent': None if p is None else (self.serial[id(p)] if id(p) in self.serial else -1),
             'path': [self.key_j(k) for k in n.sym_path.keys],
             'flags': [bool(n.is_sealed), bool(n.accessor_writable), bool(n.allow_partial)],
@@ -546,10 +613,18 @@ def canon(dump):
   def conv(t):
     if isinstance(t, dict):
       p = t['parent']
-      return [ids[t['id']], t['kind'], None if p is None else ids.get(p, -1), t['path'], t['flags'],
+      kind = t['kind']
+      if isinstance(kind, list) and len(kind) == 3:
+        tg = kind[2]
+        if isinstance(tg, list):          # implementation side: ['n', serial] | ['q', serial]
+          tg = ['n', ids.get(tg[1], -1)] if tg[0] == 'n' else ['q', opq.setdefault(('p', tg[1]), len(opq))]
+        else:                             # model side: one id space for nodes and plain objects
+          tg = ['n', ids[tg]] if tg in ids else ['q', opq.setdefault(('p', tg), len(opq))]
+        kind = [kind[0], kind[1], tg]
+      return [ids[t['id']], kind, None if p is None else ids.get(p, -1), t['path'], t['flags'],
               [[k, conv(c)] for k, c in t['items']]]
     if isinstance(t, list) and t and t[0] == 'q':
-      return ['q', opq.setdefault(t[1], len(opq))]
+      return ['q', opq.setdefault(('p', t[1]), len(opq))]
     return t
   return [conv(r) for r in dump]
 
@@ -587,6 +662,12 @@ def run_history(case, check=True, extra=None):
       break
     if check:
       bad = r.check_c01()
+      if not bad:
+        for n in getattr(r, 'removed', []):
+          if n.sym_parent is not None:
+            bad = ('not-detached', 'the node removed / replaced by this call still reports a parent '
+                   '(sym_path %r)' % str(n.sym_path))
+            break
       if bad:
         fail = {'step': i, 'op': j, 'kind': bad[0], 'what': bad[1]}
         break
